@@ -371,6 +371,15 @@ def fam_dist(rng, pid):
     return b.prog(cfg)
 
 
+def fam_bind2(rng, pid):
+    """two clients bind queues to a fresh worker at the same time, then saturate it"""
+    b = Builder(rng, 'bind2', pid)
+    cfg = {'wk': rng.choice(WKS), 'conc': rng.choice([1, 1, 2]), 'queues': [], 'nobind': True, 'errs_reader': rng.random() < 0.5}
+    b.client('b1', [{'op': 'Bind', 'kind': 'fifo'}] + [b.add(0) for _ in range(rng.choice([2, 3, 4]))] + [{'op': 'WUF'}])
+    b.client('b2', [{'op': 'Bind', 'kind': rng.choice(['fifo', 'prio'])}] + [b.add(1) for _ in range(rng.choice([2, 3, 4]))] + [{'op': 'WUF'}])
+    return b.prog(cfg)
+
+
 LIFE_OPS = ['Bind', 'Pause', 'PauseAndWait', 'Resume', 'Stop', 'WaitAndStop', 'Restart', 'TunePool', 'Add']
 
 
@@ -423,7 +432,7 @@ def life_exhaustive(maxlen, seed, prefix):
     return out
 
 
-FAMILIES = {'life': fam_life, 'adapter': fam_adapter, 'dist': fam_dist, 'basic': fam_basic, 'barrier': fam_barrier, 'ctl': fam_ctl, 'cancel': fam_cancel, 'batch': fam_batch,
+FAMILIES = {'life': fam_life, 'bind2': fam_bind2, 'adapter': fam_adapter, 'dist': fam_dist, 'basic': fam_basic, 'barrier': fam_barrier, 'ctl': fam_ctl, 'cancel': fam_cancel, 'batch': fam_batch,
             'handle': fam_handle, 'pool': fam_pool, 'multi': fam_multi}
 
 
